@@ -125,7 +125,7 @@ def reads_of(build):
     for n in walk_shallow(build.node):
         if isinstance(n, ast.Attribute) and isinstance(n.value, ast.Name) and n.value.id == ap:
             reads.setdefault(n.attr, n)
-        if isinstance(n, ast.Call) and call_name(n) == "hasattr" and len(n.args) == 2 and src(n.args[0]) == ap and isinstance(const(n.args[1]), str):
+        if isinstance(n, ast.Call) and call_name(n) in ("hasattr", "getattr") and len(n.args) >= 2 and src(n.args[0]) == ap and isinstance(const(n.args[1]), str):
             reads.setdefault(const(n.args[1]), n)
     return ap, reads
 
@@ -546,6 +546,19 @@ def check_helper_schema(R, prog, helpers):
         for e in extract(build, helper=True):
             got.setdefault(e.key(), e)
         want = set(HELPER_SPECS[key])
+        if set(got) != want:
+            # the schema differs from the reviewed table: is the helper, folded on a finite table of option values, still the reviewed one?
+            from .. import helperfold
+            sem = helperfold.compare_method(prog, ci, build.name)
+            if sem[0] is True:
+                n += len(want)
+                R.ok("HELPER-SCHEMA", "%s: %s" % (ci.name, sem[1]), build.key)
+                R.unknown("HELPER-SCHEMA", "%s schema" % ci.name, build.key,
+                          "shape not recognised (the return schema differs from the reviewed table); the meaning of the fragment was confirmed by folding")
+                continue
+            detail = (" [folding: %s]" % sem[1][:300]) if sem[0] is False else ""
+        else:
+            detail = ""
         for k in sorted(want, key=str):
             n += 1
             q, g, b, a = k
@@ -555,7 +568,7 @@ def check_helper_schema(R, prog, helpers):
             else:
                 near = [e.text() for e in got.values() if e.builder == b]
                 R.bad(F("HELPER-SCHEMA", build, "%s no longer does: %s" % (ci.name, line.strip()[:90]),
-                        "the helper is documented / reviewed to do `%s`; it now does: %s" % (line.strip()[:300], (" | ".join(near))[:400] or "nothing comparable")))
+                        "the helper is documented / reviewed to do `%s`; it now does: %s%s" % (line.strip()[:300], (" | ".join(near))[:400] or "nothing comparable", detail)))
         for k, e in got.items():
             if k not in want:
                 R.bad(F("HELPER-SCHEMA", build, "%s does something else: %s" % (ci.name, e.text()[:90]),
